@@ -200,17 +200,26 @@ def lookupHit (st : St) (vs : Vers) (hm path : String) : Except String (Option H
           .ok (some ⟨tid, rpcNameOf s.name m.name, m.cs, body,
             capture (ascii path) r "id", capture (ascii path) r "nested.name"⟩)
 
-/-- transcoded HTTP entry -/
+/-- an H probe's body selector: "*j" / "*k" = body "*" with Content-Type application/json / application/x-stk+json -/
+def bodyKind (b : String) : String × String :=
+  if b == "*j" then ("*", "json") else if b == "*k" then ("*", "stk") else (b, "")
+
+/-- transcoded HTTP entry.  Marshaler choice (`StandardTranscoder.Bind`): no Content-Type ⇒ the DEFAULT marshaler
+    (WithDefaultMarshaler: the custom one under opt=1), a Content-Type ⇒ the marshaler of the LIST registered for it
+    (WithMarshalers: JSON and the custom one under opt=1, JSON only otherwise), none ⇒ 415 — after routing. -/
 def expectH (cfg : Cfg) (st : St) (vs : Vers) (k : Nat) (hm path body : String) : String :=
+  let (bk, ct) := bodyKind body
   match lookupHit st vs hm path with
   | .error e => e
   | .ok none => "-404"
   | .ok (some h) =>
-    if h.cs then "-501"      -- "client streaming through HTTP not supported", after routing
-    else match subOf h.bindBody body s!"h{k}" with
+    if ct == "stk" && !cfg.opt then "-415"
+    else if h.cs then "-501"      -- "client streaming through HTTP not supported", after routing and binding
+    else match subOf h.bindBody bk s!"h{k}" with
       | none => "-400"
       | some sub =>
-        s!"+{h.tid}|{h.rpc}|{tok h.id}|{tok h.nested}|{sub}|{hdrOf cfg h.tid}|{if cfg.opt then "stk" else "json"}"
+        let enc := if ct == "json" then "json" else if ct == "stk" then "stk" else if cfg.opt then "stk" else "json"
+        s!"+{h.tid}|{h.rpc}|{tok h.id}|{tok h.nested}|{sub}|{hdrOf cfg h.tid}|{enc}"
 
 /-- transcoded WebSocket entry (GET upgrade; one request frame is always sent) -/
 def expectW (cfg : Cfg) (st : St) (vs : Vers) (k : Nat) (path body : String) : String :=
@@ -289,10 +298,14 @@ def classify (live : List Inst) (kind hm path impl model prevModel : String) : J
       match parseRec model with
       | some m =>
         if impl == "-14" || impl == "-503" then .viol s!"present-target-unavailable:{m.tid}"
+        else if impl == "-415" then .viol "marshaler-options-not-applied(415)"
         else if impl == "-501" || impl == "-400" then .diff "bridge-level outcome differs"
         else if cands.length == 1 then .viol s!"settled-contract-not-routable:{m.tid}"
         else if prevModel == model then .viol s!"earlier-claimant-lost-the-service:{m.tid}"
         else .diff s!"contested and unrouted: model={m.tid}"
-      | none => .viol s!"wrong-status:impl={impl},spec={model}"
+      | none =>
+        if (impl == "-14" || impl == "-503") && (model == "-12" || model == "-404") then
+          .viol "a-route-of-an-absent-target-is-still-in-the-table(Unavailable)"
+        else .viol s!"wrong-status:impl={impl},spec={model}"
 
 end GB.Stack
